@@ -111,10 +111,10 @@ class ProbeEnv(AbstractEnv):
                 + 0.1 * jr.normal(key, ()))
 
     def terminal(self, state, *, key):
-        return state.x[0] + 0.1 * jr.normal(key, ()) > self.thr
+        return state.x[0] + jr.normal(key, ()) > self.thr
 
     def term_margin(self, state, *, key):
-        return jnp.abs(state.x[0] + 0.1 * jr.normal(key, ()) - self.thr)
+        return jnp.abs(state.x[0] + jr.normal(key, ()) - self.thr)
 
     def truncate(self, state):
         return (self.t_inner > 0) & (state.t >= self.t_inner)
